@@ -11,6 +11,7 @@ import (
 	"hash/fnv"
 	"io"
 	"log"
+	"net"
 	"os"
 	"path/filepath"
 	"sort"
@@ -19,6 +20,7 @@ import (
 	"sync"
 	"sync/atomic"
 	"testing"
+	"time"
 
 	"pgregory.net/rapid"
 )
@@ -326,6 +328,41 @@ func ReportKnown(id string) {
 			return
 		}
 	}
+}
+
+// ---------------------------------------------------------------------------
+// sockets of the harness itself
+
+// Listen is net.Listen with patience: under heavy connection churn the kernel
+// can run out of bindable ephemeral ports for a while. That is an environment
+// condition, never a verdict about the code under test.
+func Listen(network, addr string) (net.Listener, error) {
+	var ln net.Listener
+	var err error
+	for i := 0; i < 50; i++ {
+		if ln, err = net.Listen(network, addr); err == nil {
+			return ln, nil
+		}
+		if !EnvErr(err) {
+			return nil, err
+		}
+		time.Sleep(200 * time.Millisecond)
+	}
+	return nil, err
+}
+
+// EnvErr reports whether err is a local resource problem (ports, descriptors).
+func EnvErr(err error) bool {
+	if err == nil {
+		return false
+	}
+	s := err.Error()
+	for _, m := range []string{"address already in use", "cannot assign requested address", "too many open files", "no buffer space"} {
+		if strings.Contains(s, m) {
+			return true
+		}
+	}
+	return false
 }
 
 // ---------------------------------------------------------------------------
